@@ -2,6 +2,8 @@
 
 package actionlint
 
+import "gopkg.in/yaml.v3"
+
 // Harness runtime, symbolic variant: every function here is intercepted by
 // name by the gosx engine; the bodies only exist so that the package type
 // checks. The native replay variant is rt_replay.go.
@@ -35,3 +37,4 @@ func verifMsgHasRawNewline(msg string) bool             { return false }
 func verifNative(name string) int                       { return 0 }
 func verifStringOf(s string) string                     { return s }
 func verifMsgQuotedRune(msg string) (rune, bool)          { return 0, false }
+func verifParseYAML(src string) *yaml.Node               { return nil }
